@@ -36,5 +36,6 @@
 (declare-fun xn_childident (Iface Int) Int)
 (declare-fun sch_nuniques (Iface) Int)
 (declare-fun sch_unique (Iface Int) Slice)
-(declare-fun unique_key (Int Slice) String)
+(declare-fun unique_key (Int Slice) String)     ; getUniqueKey: the key of an entry for one unique set ...
+(declare-fun unique_has (Int Slice) Bool)       ; ... and whether the entry has every leaf of the set
 (declare-fun sch_defaultcase (Iface) String)     ; Choice.DefaultCase()
